@@ -54,6 +54,7 @@ from .sym import (
     di_to_float,
     fresh_name,
     fv_apply,
+    fv_guard_of,
     is_sym,
     leaves_of,
     lit,
@@ -198,7 +199,10 @@ def builtin_len(eng, v, st):
     if isinstance(v, GList):
         if all(z3.is_true(g) for g, _ in v.items):
             return len(v.items)
-        pairs = None
+        try:
+            return len(eng.compact_glist(v, st))
+        except Unsupported:
+            pass
         total = z3.Sum([z3.If(g, 1, 0) for g, _ in v.items])
         return SInt(total)
     if isinstance(v, FV):
@@ -882,8 +886,11 @@ def str_method(eng, s, name, args, kwargs, st):
         out = []
         for x in items:
             if isinstance(x, FV):
-                x = eng.fv_to_abstract_str(x)
-            if not isinstance(x, (str, SStr)):
+                if not all(isinstance(v, str) for v in x.values):
+                    bad = fv_guard_of(x, lambda v: not isinstance(v, str))
+                    if st.decide(bad, "join of non-str"):
+                        raise PyRaise(TypeError, ("sequence item: expected str instance",))
+            elif not isinstance(x, (str, SStr)):
                 raise PyRaise(TypeError, ("sequence item: expected str instance",))
             out.append(x)
         return S.join(s, out)
@@ -893,6 +900,13 @@ def str_method(eng, s, name, args, kwargs, st):
                 return s.format(*args, **kwargs)
             except Exception as e:  # noqa
                 raise PyRaise(type(e), e.args)
+        if all(is_concrete(a) or isinstance(a, FV) for a in args) and all(is_concrete(v) for v in kwargs.values()):
+            n = 1
+            for a in args:
+                if isinstance(a, FV):
+                    n *= len(a.values)
+            if n <= 4096:
+                return eng.lift_raise(lambda *a: s.format(*[concrete_str(x) if isinstance(x, DI) else x for x in a], **kwargs), list(args), st)
         try:
             return S.fmt(s, args, kwargs, lambda v: _fmt_str(eng, v, st))
         except (IndexError, KeyError) as e:
@@ -913,15 +927,30 @@ def str_method(eng, s, name, args, kwargs, st):
 
 
 def _fmt_str(eng, v, st):
-    r = builtin_str(eng, v, st)
-    if isinstance(r, FV):
-        r = eng.fv_to_abstract_str(r)
-    return r
+    return builtin_str(eng, v, st)
 
 
 def glist_method(eng, l, name, args, kwargs, st):
-    if name == "append":
+    if name in ("append", "extend", "insert", "pop", "remove", "clear", "sort", "reverse"):
+        eng.check_global_write(l, st, "list.%s" % name)
+    if name == "extend":
         g = _and(st.guards) if st.guards else z3.BoolVal(True)
+        n = len(l.items)
+        src = args[0]
+        if isinstance(src, GList):
+            l.items.extend((_and([g, h]), x) for h, x in src.items)
+        else:
+            l.items.extend((g, x) for x in eng.iterate(src, st))
+        st.log(lambda: l.items.__delitem__(slice(n, None)))
+        return None
+    if name in ("index", "count", "pop", "insert", "remove", "sort", "reverse", "clear") and all(z3.is_true(g) for g, _ in l.items) and not st.guards:
+        plain = [x for _, x in l.items]
+        r = list_method(eng, plain, name, args, kwargs, st)
+        l.items = [(z3.BoolVal(True), x) for x in plain]
+        return r
+    if name == "append":
+        gs = st.guards[eng.base_of(l, st):]
+        g = _and(gs) if gs else z3.BoolVal(True)
         l.items.append((g, args[0]))
         st.log(lambda: l.items.pop())
         return None
@@ -937,7 +966,7 @@ def list_method(eng, l, name, args, kwargs, st):
     if name in MUTATING_LIST:
         eng.check_global_write(l, st, "list.%s" % name)
     if name == "append":
-        if st.guards:
+        if st.guards[eng.base_of(l, st):]:
             raise NeedFork("append to a plain list under a merge guard")
         l.append(args[0])
         st.log(lambda: l.pop())
